@@ -53,7 +53,9 @@ pub enum COp {
     /// (`twice`: flush a second time right away, which must add nothing)
     /// (`cloned`: a clone of the local handle taken while the batch is pending is flushed as well;
     /// a clone starts empty, so that flush must add nothing)
-    Batch { digits: Vec<usize>, twice: bool, cloned: bool },
+    /// (`via_local_vec`: vector access only - the batch goes through the thread's LocalCounterVec handle, which
+    /// then looks up a dozen other label sets before the flush, so its child cache grows past its small sizes)
+    Batch { digits: Vec<usize>, twice: bool, cloned: bool, via_local_vec: bool },
     Read(Via),
     Reset,
 }
@@ -136,6 +138,11 @@ impl Ctr {
             Ctr::U(c) => LocalH::U(c.local()),
         }
     }
+}
+
+enum LocalV {
+    F(prometheus::local::LocalCounterVec),
+    U(prometheus::local::LocalIntCounterVec),
 }
 
 enum LocalH {
@@ -263,7 +270,12 @@ impl World {
         for mf in mfs {
             if mf.name() == name {
                 for m in mf.get_metric() {
-                    found.push(m.get_counter().value());
+                    // other children of the vector (looked up by local-vector handles) are not under test
+                    let ls = m.get_label();
+                    let is_other = ls.iter().any(|l| l.name() == "a" && l.value() != LV[0]);
+                    if !is_other {
+                        found.push(m.get_counter().value());
+                    }
                 }
             }
         }
@@ -333,7 +345,8 @@ pub fn generate(rng: &mut Rng, job: &Job) -> Scenario {
                         let k = 2 + rng.usize_below(2);
                         let ds: Vec<usize> = (next_digit..next_digit + k).collect();
                         next_digit += k;
-                        ops.push(COp::Batch { digits: ds, twice: rng.chance(1, 3), cloned: rng.chance(1, 3) });
+                        let via_local_vec = matches!(access, Access::VecChild | Access::VecChildMap) && rng.chance(1, 2);
+                        ops.push(COp::Batch { digits: ds, twice: rng.chance(1, 3), cloned: rng.chance(1, 3), via_local_vec });
                     }
                     _ => {
                         ops.push(COp::IncBy(next_digit));
@@ -391,7 +404,7 @@ pub fn scenario_json(sc: &Scenario) -> Json {
                     .map(|o| match o {
                         COp::IncBy(j) => Json::Str(format!("inc_by(4^{})", j)),
                         COp::Inc => Json::Str("inc()".into()),
-                        COp::Batch { digits, twice, cloned } => Json::Str(format!("local inc_by 4^{:?}; {}flush{}", digits, if *cloned { "clone, flush the clone; " } else { "" }, if *twice { "; flush" } else { "" })),
+                        COp::Batch { digits, twice, cloned, via_local_vec } => Json::Str(format!("{} inc_by 4^{:?}; {}flush{}", if *via_local_vec { "local vec (+12 other label sets)" } else { "local" }, digits, if *cloned { "clone, flush the clone; " } else { "" }, if *twice { "; flush" } else { "" })),
                         COp::Read(v) => Json::Str(format!("read via {}", via_name(*v))),
                         COp::Reset => Json::Str("reset()".into()),
                     })
@@ -436,6 +449,7 @@ pub fn execute(sc: &Scenario, job: &Job, case: u64) -> Execution {
     let outcome = run_threads(&cfg, sc.threads.len(), &|tid| {
         // one local handle per thread, reused by all of the thread's batches
         let mut local: Option<LocalH> = None;
+        let mut local_vec: Option<LocalV> = None;
         for op in &sc.threads[tid] {
             match op {
                 COp::IncBy(j) => {
@@ -445,7 +459,56 @@ pub fn execute(sc: &Scenario, job: &Job, case: u64) -> Execution {
                 COp::Inc => {
                     sinks.call(tid, || world.handle().inc(), |_| CRec::Add { mask: 1, batch: false });
                 }
-                COp::Batch { digits, twice, cloned } => {
+                COp::Batch { digits, via_local_vec: true, .. } => {
+                    let mut mask = 0u64;
+                    for j in digits {
+                        mask |= 1 << *j;
+                    }
+                    match (&world.holder, &mut local_vec) {
+                        (Holder::VecF(v), lv) => {
+                            let lv = match lv {
+                                Some(LocalV::F(l)) => l,
+                                _ => {
+                                    *lv = Some(LocalV::F(v.local()));
+                                    match lv {
+                                        Some(LocalV::F(l)) => l,
+                                        _ => unreachable!(),
+                                    }
+                                }
+                            };
+                            for j in digits {
+                                lv.with_label_values(LV).inc_by(unit_u64(*j) as f64);
+                            }
+                            for k in 0..12 {
+                                let other = format!("other{}", k);
+                                let _ = lv.with_label_values(&[other.as_str(), "z"]);
+                            }
+                            sinks.call(tid, || lv.flush(), |_| CRec::Add { mask, batch: true });
+                        }
+                        (Holder::VecU(v), lv) => {
+                            let lv = match lv {
+                                Some(LocalV::U(l)) => l,
+                                _ => {
+                                    *lv = Some(LocalV::U(v.local()));
+                                    match lv {
+                                        Some(LocalV::U(l)) => l,
+                                        _ => unreachable!(),
+                                    }
+                                }
+                            };
+                            for j in digits {
+                                lv.with_label_values(LV).inc_by(unit_u64(*j));
+                            }
+                            for k in 0..12 {
+                                let other = format!("other{}", k);
+                                let _ = lv.with_label_values(&[other.as_str(), "z"]);
+                            }
+                            sinks.call(tid, || lv.flush(), |_| CRec::Add { mask, batch: true });
+                        }
+                        _ => unreachable!("via_local_vec is only generated for vector access"),
+                    }
+                }
+                COp::Batch { digits, twice, cloned, .. } => {
                     let l = local.get_or_insert_with(|| world.handle().local());
                     l.add(digits);
                     if *cloned {
